@@ -154,26 +154,44 @@ def r07_2(ctx) -> None:
 def r07_5(ctx) -> None:
     eng = ctx.eng
     P = eng.prog
+    from .common import resolve_all
     je = P.func("util:json_b64encode")
+    pt = je.pos_params[0]
     dumps = [n for n in fn_nodes(je) if isinstance(n, ast.Call) and norm(n.func) == "json.dumps"]
     ok = len(dumps) == 1
     if ok:
         kw = {k.arg: k.value for k in dumps[0].keywords}
         sep = kw.get("separators")
-        ok = isinstance(sep, ast.Tuple) and [const_value(e) for e in sep.elts] == [",", ":"] and is_const(kw.get("ensure_ascii", ast.Constant(value=True)), True)
-    rets = [norm(r.value) for r in fn_nodes(je) if isinstance(r, ast.Return)]
-    pt = je.pos_params[0]
-    ok = ok and rets == [f"urlsafe_b64encode(to_bytes({pt}, 'ascii'))"]
-    # everything that is ever bound to the text that gets encoded is the output of that json.dumps call on the given object: no hand-written
-    # formatter beside it, no `default=` / `cls=` hook that would serialise objects which are not JSON values
-    binds = [n for n in fn_nodes(je) if isinstance(n, (ast.Assign, ast.AnnAssign, ast.AugAssign)) and any(isinstance(x, ast.Name) and x.id == pt and isinstance(x.ctx, ast.Store)
+        ok = isinstance(sep, ast.Tuple) and [const_value(e) for e in sep.elts] == [",", ":"] and is_const(kw.get("ensure_ascii", ast.Constant(value=True)), True) \
+            and len(dumps[0].args) == 1 and norm(dumps[0].args[0]) == pt and set(kw) <= {"ensure_ascii", "separators"}
+    # every return is urlsafe_b64encode(to_bytes(<text>, 'ascii')) where <text> is that json.dumps output or the argument itself (already serialised
+    # by the caller) - whatever locals carry it; nothing else is ever encoded (no hand-written formatter, no default= / cls= hook)
+    rets = [r for r in fn_nodes(je) if isinstance(r, ast.Return) and r.value is not None]
+    DUMP = norm(dumps[0]) if dumps else "?"
+    seen = set()
+    for r in rets:
+        for t_ in resolve_all(eng, je, r.value):
+            m_ = t_.startswith("urlsafe_b64encode(to_bytes(") and t_.endswith(", 'ascii'))")
+            inner = t_[len("urlsafe_b64encode(to_bytes("):-len(", 'ascii'))")] if m_ else None
+            if inner == DUMP:
+                seen.add("dumps")
+            elif inner == pt:
+                seen.add("param")
+            else:
+                ok = False
+                ctx.fail("R07.5", je, r, f"the header octets that are signed can be `{t_[:80]}`, which is not the base64url of the JSON serialisation of the header by json.dumps "
+                         "without hooks (a hand-written formatter does not escape '\"' and '\\'; a default= hook serialises non-JSON objects)", construct=f"header text bound to {t_[:50]}")
+    # a parameter re-binding, where used, is that json.dumps call
+    binds = [n for n in fn_nodes(je) if isinstance(n, (ast.Assign, ast.AugAssign)) and any(isinstance(x, ast.Name) and x.id == pt and isinstance(x.ctx, ast.Store)
              for t_ in (n.targets if isinstance(n, ast.Assign) else [n.target]) for x in ast.walk(t_))]
     for b in binds:
-        v = b.value
-        good = isinstance(v, ast.Call) and norm(v.func) == "json.dumps" and len(v.args) == 1 and norm(v.args[0]) == pt and {k.arg for k in v.keywords} <= {"ensure_ascii", "separators"}
-        ctx.check(good, "R07.5", je, b, f"{je.short} :: {norm(b)[:60]}", f"the header text that is signed can be `{norm(v)[:70]}`, which is not the JSON serialisation of the header by json.dumps "
-                  "without hooks (a hand-written formatter does not escape '\"' and '\\'; a default= hook serialises non-JSON objects)", "text = json.dumps(text, ensure_ascii=True, separators=(',', ':'))",
-                  construct=f"header text bound to {norm(v)[:50]}")
+        if norm(b.value) == DUMP:
+            seen.add("dumps")
+        if norm(b.value) != DUMP:
+            ok = False
+            ctx.fail("R07.5", je, b, f"the header text that is signed can be `{norm(b.value)[:70]}`, which is not the JSON serialisation of the header by json.dumps without hooks",
+                     construct=f"header text bound to {norm(b.value)[:50]}")
+    ok = ok and "dumps" in seen
     ctx.check(ok, "R07.5", je, je.node, je.short, "header JSON is not serialised compactly in ASCII and base64url-encoded", "json.dumps(separators=(',', ':'), ensure_ascii=True) -> urlsafe_b64encode",
               construct="json_b64encode")
     ue = P.func("util:urlsafe_b64encode")
